@@ -825,3 +825,50 @@ theorem filter_idempotent' (cr : List Band) (sp s' : List Ch) (hv : Valid sp) (h
     simp [List.filter_filter, hne]
 
 end Gnpy.Bands
+
+namespace Gnpy.Bands
+
+/-! ### uniform grid -/
+
+theorem grid_before (fmin spacing baud : Int) (hs : 0 < spacing) (i j : Nat) (hij : i < j) :
+    Before { f := fmin + spacing * ((i : Int) + 1), slot := spacing, baud := baud, pay := i }
+           { f := fmin + spacing * ((j : Int) + 1), slot := spacing, baud := baud, pay := j } := by
+  simp only [Before]
+  have h : (i : Int) + 1 ≤ j := by exact_mod_cast hij
+  nlinarith [mul_nonneg hs.le (sub_nonneg.2 h)]
+
+/-- **a uniform grid is always a valid spectrum** (spacing > 0, baud rate ≤ spacing): sorted, non-overlapping,
+`automatic_nch` channels -/
+theorem grid_valid' (fmin fmax spacing baud : Int) (hs : 0 < spacing) (hb : baud ≤ spacing) :
+    mkSpectrum (gridChans fmin fmax spacing baud) = .ok (gridChans fmin fmax spacing baud) ∧
+    (gridChans fmin fmax spacing baud).length = automaticNch fmin fmax spacing := by
+  have hpb : (gridChans fmin fmax spacing baud).Pairwise Before := by
+    simp only [gridChans]
+    rw [List.pairwise_map]
+    exact (List.pairwise_lt_range).imp (fun h => grid_before fmin spacing baud hs _ _ h)
+  have hslot : ∀ c ∈ gridChans fmin fmax spacing baud, c.slot = spacing ∧ c.baud = baud := by
+    intro c hc
+    simp only [gridChans, List.mem_map] at hc
+    obtain ⟨i, _, rfl⟩ := hc
+    exact ⟨rfl, rfl⟩
+  refine ⟨(valid_iff _).2 ⟨?_, adj_of_pairwise_before _ hpb, (baudOk_iff _).2 ?_⟩, by simp [gridChans]⟩
+  · have : (gridChans fmin fmax spacing baud).Pairwise (fun a b => Before a b ∧ (a.slot = spacing ∧ b.slot = spacing)) :=
+      hpb.and (List.pairwise_of_forall_mem_list (fun a ha b hb => ⟨(hslot a ha).1, (hslot b hb).1⟩))
+    exact this.imp (fun h => by simp only [Before] at h; omega)
+  · intro c hc
+    rw [(hslot c hc).1, (hslot c hc).2]; exact hb
+
+/-- the centre frequencies of the grid lie in `(f_min, f_max]` -/
+theorem grid_inside' (fmin fmax spacing baud : Int) (hs : 0 < spacing) (c : Ch)
+    (hc : c ∈ gridChans fmin fmax spacing baud) : fmin < c.f ∧ c.f ≤ fmax := by
+  simp only [gridChans, List.mem_map, List.mem_range] at hc
+  obtain ⟨i, hi, rfl⟩ := hc
+  simp only [automaticNch] at hi
+  have h1 : ((i : Int) + 1) ≤ (fmax - fmin) / spacing := by omega
+  have h2 : spacing * ((fmax - fmin) / spacing) ≤ fmax - fmin := Int.mul_ediv_self_le (ne_of_gt hs)
+  constructor
+  · nlinarith
+  · nlinarith [mul_le_mul_of_nonneg_left h1 hs.le]
+
+
+end Gnpy.Bands
